@@ -310,6 +310,13 @@ func VerifC37CreateSet() {
 		} else if o := oObjByID(g, key); o != nil {
 			before = o.Label.Value
 		}
+		// elements are followed through the edit by their labels: the new value is a label no element has yet
+		for _, o := range g.Objects {
+			nd.Assume(o.Label.Value != v)
+		}
+		for _, e := range g.Edges {
+			nd.Assume(e.Label.Value != v)
+		}
 		g2, err := Set(g, nil, key, nil, &v)
 		if err != nil {
 			nd.Cover("refused")
